@@ -589,6 +589,26 @@ def r17_12(ctx):
         ctx.bad("R17.12", fi.module, fi.qual, "SELECT name FROM mailboxes ... skipped on some path", "do_list can set the children attributes without having collected all mailbox names from the database: under a selection option or pattern that filters the children out of the results (LIST (SUBSCRIBED) with pattern *) a mailbox with children is reported as having none", g.nodes[w[-1]].line, flow.fmt_path(g, w))
 
 
+def r17_13(ctx):
+    """DELETE of a mailbox that has inferiors (or is subscribed) keeps it as a \\Noselect placeholder: still listed, still in
+    active_mailboxes, still the target of a later RENAME or of the DELETE that finally removes it.  Those commands queue on
+    it, so the placeholder keeps its management task: Mailbox.shutdown() belongs to the arm that removes the folder, and is
+    not on any path that goes on to mark the mailbox \\Noselect."""
+    p = ctx.p
+    fi = p.func("mbox.Mailbox.delete")
+    g = ctx.cfg(fi)
+    shut = [n.id for n in g.nodes if n.ast is not None and n.kind == "stmt" and any(call_name(c) == "shutdown" for c in calls_in(n.ast))]
+    keep = [n.id for n in g.nodes if n.ast is not None and n.kind == "stmt" and "Noselect" in norm(n.ast, 200) and any(call_name(c) == "add" for c in calls_in(n.ast))]
+    ctx.require(shut, "Mailbox.delete: call of shutdown() not found")
+    ctx.require(keep, "Mailbox.delete: the placeholder arm (attributes.add of Noselect) not found")
+    after = flow.reach(g, shut, flow.NORMAL)
+    ctx.paths_explored += 1
+    if any(k in after for k in keep):
+        ctx.bad("R17.13", fi.module, fi.qual, "mbox.shutdown() on the path to the \\Noselect placeholder", "DELETE shuts the mailbox object down (management task cancelled) also when it only turns it into a \\Noselect placeholder: the placeholder stays listed and active but nobody serves its queue - the RENAME that should move it and the DELETE that should finally remove it wait for the watchdog, and the name stays in LIST/LSUB for good", g.nodes[shut[0]].line)
+    else:
+        ctx.ok("R17.13", where(fi), "shutdown() is reached only on the arm that removes the folder; the \\Noselect placeholder keeps its management task")
+
+
 def run(ctx):
     ctx.do(r17_8)
     ctx.do(r17_9)
@@ -602,4 +622,7 @@ def run(ctx):
     from . import c05
     ctx.do(c05.r5_5)
     ctx.do(r17_12)
+    ctx.do(r17_13)
+    from . import c08 as _c08
+    ctx.do(_c08.r8_3)  # the inbox and what lies below it are recognised in every spelling
     ctx.note("R17.3 validate-before-mutate for create/delete/rename is decided by C05 R5.5")
